@@ -328,6 +328,22 @@ def observe(model, viol, site, probes, extra_tree):
                 viol('pairing', site, 'tree_transpose_map under mode %s in namespace %r gives %r' % (want_eff, ns, tm))
         except Exception as e:  # noqa: BLE001
             viol('pairing', site, 'tree_transpose(_map) raised %s: %s (namespace %r, mode %s)' % (type(e).__name__, e, ns, want_eff))
+        # every CALLING FORM of the dict constructors: a mapping, pairs, keyword children, and a mapping plus keyword children
+        # (the keyword children come after the mapping's entries, as in dict(mapping, **kwargs))
+        lf = optree.treespec_leaf()
+        forms = (
+            ('treespec_dict(mapping, **kw)', optree.treespec_dict({'m': lf, 'd': lf}, z=lf, b=lf, namespace=ns), dict({'m': 0, 'd': 0}, z=0, b=0)),
+            ('treespec_dict(pairs, **kw)', optree.treespec_dict([('m', lf), ('d', lf)], z=lf, b=lf, namespace=ns), dict([('m', 0), ('d', 0)], z=0, b=0)),
+            ('treespec_dict(**kw)', optree.treespec_dict(z=lf, b=lf, namespace=ns), dict(z=0, b=0)),
+            ('treespec_defaultdict(f, mapping, **kw)', optree.treespec_defaultdict(int, {'m': lf, 'd': lf}, z=lf, b=lf, namespace=ns), defaultdict(int, {'m': 0, 'd': 0}, z=0, b=0)),
+            ('treespec_defaultdict(f, **kw)', optree.treespec_defaultdict(list, z=lf, b=lf, namespace=ns), defaultdict(list, z=0, b=0)),
+            ('treespec_ordereddict(mapping, **kw)', optree.treespec_ordereddict({'m': lf, 'd': lf}, z=lf, b=lf, namespace=ns), OrderedDict({'m': 0, 'd': 0}, z=0, b=0)),
+        )
+        for fname, made_f, same_tree in forms:
+            ref_f = optree.tree_structure(same_tree, namespace=ns)
+            if made_f != ref_f or made_f.entries() != ref_f.entries():
+                viol('order-mismatch', site, '%s in namespace %r under mode %s has entries %r; flattening the dict built the same way gives %r' % (
+                    fname, ns, want_eff, made_f.entries(), ref_f.entries()))
         # tree_transpose takes the namespace to re-flatten in from whichever of its treespecs recorded one: the inner treespec made
         # in this namespace (under its mode), the outer one made without any namespace -- and the mirrored case
         try:
